@@ -837,6 +837,7 @@ def run(ctx, n_quick=400, n_thorough=6000):
     guard(res, "C02", text_shapes_stream, ctx, res)
     guard(res, "C02", options_and_files_stream, ctx, res)
     guard(res, "C02", extension_roundtrip_stream, ctx, res)
+    guard(res, "C02", lambda: __import__("extstreams").include_and_blank_roundtrip_stream(ctx, res, "C02"))
     guard(res, "C02", lambda: P.run_stream(ctx, res, "C02", ctx.n(n_quick, n_thorough), oracle, gen_ops=gen_ops, ops_len=(3, 10),
                  schema_opts={"virtual": True}, label="save-reload"))
     replies = ctx.model([r for _, _, r in PENDING])
